@@ -105,9 +105,9 @@ type c03iRunObs struct {
 	Running      []string `json:"running"`             // inside their body when this Invoke returned
 	Stage        string   `json:"stage,omitempty"`     // where the release script stood when the Invoke returned / the guard fired
 	ScriptDone   bool     `json:"scriptDone"`
-	TraceNum     int      `json:"traceNum"`                // num at the return, from the replayed hook events (-1: no trace)
-	TraceLost    []string `json:"traceLost,omitempty"`     // submitted and never received, from the hook events
-	TraceProblem string   `json:"traceProblem,omitempty"`  // the trace is not a run of the protocol model
+	TraceNum     int      `json:"traceNum"`               // num at the return, from the replayed hook events (-1: no trace)
+	TraceLost    []string `json:"traceLost,omitempty"`    // submitted and never received, from the hook events
+	TraceProblem string   `json:"traceProblem,omitempty"` // the trace is not a run of the protocol model
 	Trace        any      `json:"trace,omitempty"`
 	events       []compose.VerifC03Event
 }
@@ -913,9 +913,10 @@ type c03pCase struct {
 	Kind    string `json:"kind"` // "prefail"
 	Mode    string `json:"mode"` // pregel | dag | workflow
 	NeedAll bool   `json:"needAll"`
-	Prefix  bool   `json:"prefix"` // a first node p0 in front of the step
-	N       int    `json:"n"`      // nodes of the step
-	Fail    int    `json:"fail"`   // the Fail-th call of the step's state pre-handler fails (0: none)
+	Prefix  bool   `json:"prefix"`            // a first node p0 in front of the step
+	N       int    `json:"n"`                 // nodes of the step
+	Fail    int    `json:"fail"`              // the Fail-th call of the step's state pre-handler fails (0: none)
+	Sibling bool   `json:"sibling,omitempty"` // workflow with a first node: a slow node next to p0 is still running when the step is submitted
 	Note    string `json:"note,omitempty"`
 }
 
@@ -930,10 +931,11 @@ type c03pObs struct {
 	Class         string         `json:"class"` // prehandler-error | ok | error | hang | panic-escaped | build-error
 	Detail        string         `json:"detail,omitempty"`
 	PreCalls      int            `json:"preCalls"`
-	StepEntered   []string       `json:"stepEntered"`   // bodies of step nodes entered (after the goroutines have settled)
-	StepFinished  []string       `json:"stepFinished"`  // `finish` hook events of step nodes (after every gate has been opened)
-	LeakedBlocked int            `json:"leakedBlocked"` // goroutines created by taskManager.submit, alive after the return, inside a node body
-	LeakedOther   int            `json:"leakedOther"`   // ... alive and not inside a node body after the settle time
+	StepEntered   []string       `json:"stepEntered"`           // bodies of step nodes entered (after the goroutines have settled)
+	StepFinished  []string       `json:"stepFinished"`          // `finish` hook events of step nodes (after every gate has been opened)
+	LeakedBlocked int            `json:"leakedBlocked"`         // goroutines created by taskManager.submit, alive after the return, inside a node body
+	LeakedOther   int            `json:"leakedOther"`           // ... alive and not inside a node body after the settle time
+	SiblingLeft   bool           `json:"siblingLeft,omitempty"` // the slow sibling of an earlier step was still running, uncollected, when the run returned the error
 	TraceNum      int            `json:"traceNum"`
 	TraceLost     []string       `json:"traceLost,omitempty"`
 	TraceProblem  string         `json:"traceProblem,omitempty"`
@@ -941,6 +943,8 @@ type c03pObs struct {
 	Result        [][]string     `json:"result,omitempty"`
 	Trace         any            `json:"trace,omitempty"`
 }
+
+var c03pSiblingNoted bool
 
 var errC03pPre = errors.New("verif-c03: the state pre-handler of this step fails")
 
@@ -977,18 +981,43 @@ func (r *c03pRun) c03pBody(key string, step bool, in map[string]any) (map[string
 	return map[string]any{key: c03Render(key, in)}, nil
 }
 
+// c03pSibling is the body of the slow node "s" (a name of its own for the goroutine accounting)
+func (r *c03pRun) c03pSibling(in map[string]any) (map[string]any, error) {
+	r.mu.Lock()
+	r.active++
+	r.entered["s"]++
+	r.mu.Unlock()
+	defer func() {
+		r.mu.Lock()
+		r.active--
+		r.cond.Broadcast()
+		r.mu.Unlock()
+	}()
+	if r.c.Fail > 0 {
+		<-r.gate
+	}
+	return map[string]any{"s": c03Render("s", in)}, nil
+}
+
 func (c *c03pCase) graph() (nodes []c03Node, step []string) {
 	root := compose.START
 	if c.Prefix {
 		nodes = append(nodes, c03Node{Key: "p0", Preds: []string{compose.START}})
 		root = "p0"
 	}
+	if c.Sibling {
+		nodes = append(nodes, c03Node{Key: "s", Preds: []string{compose.START}})
+	}
 	for i := 0; i < c.N; i++ {
 		k := fmt.Sprintf("a%d", i+1)
 		step = append(step, k)
 		nodes = append(nodes, c03Node{Key: k, Preds: []string{root}})
 	}
-	nodes = append(nodes, c03Node{Key: "j", Preds: append([]string{}, step...)})
+	jp := append([]string{}, step...)
+	if c.Sibling {
+		jp = append(jp, "s")
+	}
+	nodes = append(nodes, c03Node{Key: "j", Preds: jp})
 	return nodes, step
 }
 
@@ -1022,6 +1051,9 @@ func c03pBuild(c *c03pCase, r *c03pRun) (c03rInvoker, error) {
 		return o
 	}
 	lambda := func(key string) *compose.Lambda {
+		if key == "s" {
+			return compose.InvokableLambda(func(ctx context.Context, in c03rM) (c03rM, error) { return r.c03pSibling(in) })
+		}
 		return compose.InvokableLambda(func(ctx context.Context, in c03rM) (c03rM, error) { return r.c03pBody(key, isStep[key], in) })
 	}
 	var run compose.Runnable[c03rM, c03rM]
@@ -1067,8 +1099,8 @@ func c03pBuild(c *c03pCase, r *c03pRun) (c03rInvoker, error) {
 
 // the live goroutines created by (*taskManager).submit: header ("goroutine N") -> is it
 // inside a node body of this family?  (A goroutine is listed from the `go` statement on,
-// whether or not it has been scheduled yet.)
-func c03pSubmitGoroutines() map[string]bool {
+// whether or not it has been scheduled yet.)  1 = inside c03pBody, 2 = inside c03pSibling, 0 = elsewhere.
+func c03pSubmitGoroutines() map[string]int {
 	buf := make([]byte, 1<<18)
 	for {
 		n := runtime.Stack(buf, true)
@@ -1078,11 +1110,18 @@ func c03pSubmitGoroutines() map[string]bool {
 		}
 		buf = make([]byte, 2*len(buf))
 	}
-	out := map[string]bool{}
+	out := map[string]int{}
 	for _, g := range strings.Split(string(buf), "\n\n") {
 		if strings.Contains(g, "created by github.com/cloudwego/eino/compose.(*taskManager).submit") {
 			if i := strings.Index(g, " ["); i > 0 {
-				out[g[:i]] = strings.Contains(g, "c03pBody")
+				switch {
+				case strings.Contains(g, "c03pBody"):
+					out[g[:i]] = 1
+				case strings.Contains(g, "c03pSibling"):
+					out[g[:i]] = 2
+				default:
+					out[g[:i]] = 0
+				}
 			}
 		}
 	}
@@ -1120,19 +1159,23 @@ func c03pImpl(c *c03pCase) (*c03pObs, []compose.VerifC03Event) {
 		// goroutine accounting: executor goroutines of collected tasks are on their way out
 		// (they have unlocked the mutex and return); a goroutine started for a task that was
 		// never collected enters its body and stays there (the gate is closed)
+		settle := time.Now().Add(10 * time.Second)
 		for i := 0; ; i++ {
-			o.LeakedBlocked, o.LeakedOther = 0, 0
-			for id, inBody := range c03pSubmitGoroutines() {
-				if before[id] {
+			o.LeakedBlocked, o.LeakedOther, o.SiblingLeft = 0, 0, false
+			for id, where := range c03pSubmitGoroutines() {
+				if _, old := before[id]; old {
 					continue
 				}
-				if inBody {
+				switch where {
+				case 1:
 					o.LeakedBlocked++
-				} else {
+				case 2:
+					o.SiblingLeft = true
+				default:
 					o.LeakedOther++
 				}
 			}
-			if o.LeakedOther == 0 || i > 4000 {
+			if o.LeakedOther == 0 || time.Now().After(settle) {
 				break
 			}
 			if i < 100 {
@@ -1221,12 +1264,15 @@ func c03WaitPushedOrGone(key string) {
 func c03pOne(ctx *vh.Ctx, c *c03pCase) error {
 	ctx.Progress.Mark(c)
 	c.NeedAll = c.Mode != "workflow"
-	ctx.Res.Count(fmt.Sprintf("prefail|%s|%v|%d|%d", c.Mode, c.Prefix, c.N, c.Fail), c.Fail >= 2)
+	ctx.Res.Count(fmt.Sprintf("prefail|%s|%v|%v|%d|%d", c.Mode, c.Prefix, c.Sibling, c.N, c.Fail), c.Fail >= 2)
 	ctx.Res.Dist("family:prefail")
 	ctx.Res.Dist("prefail:mode:" + c.Mode)
 	ctx.Res.Dist(fmt.Sprintf("prefail:step-nodes:%d", c.N))
 	ctx.Res.Dist(fmt.Sprintf("prefail:failing-call:%d", c.Fail))
 	ctx.Res.Dist(fmt.Sprintf("prefail:prefix:%v", c.Prefix))
+	if c.Sibling {
+		ctx.Res.Dist("prefail:eager:earlier-sibling-in-flight")
+	}
 	ctx.Res.Sample(c)
 	nodes, step := c.graph()
 	var model any
@@ -1304,6 +1350,15 @@ func c03pOne(ctx *vh.Ctx, c *c03pCase) error {
 		}
 		return nil
 	}
+	if obs.SiblingLeft {
+		// outside this family's clause (the executions of the FAILED step): an eager run that returns
+		// an error does not collect what earlier steps left in flight
+		ctx.Res.Dist("prefail:eager:earlier-sibling-abandoned-on-error-return")
+		if !c03pSiblingNoted {
+			c03pSiblingNoted = true
+			ctx.Res.Note("observation (eager Workflow, not part of the prefail clause): when submit fails while a node of an EARLIER step is still running, the run returns the error at once; that execution is never collected (same class as the known finding: eager runs return without their stragglers)")
+		}
+	}
 	if obs.PreCalls != c.Fail {
 		dis("C03:prefail:prehandler-calls-differ:"+c.Mode, fmt.Sprintf("%d pre-handler calls of the step, the %d-th one fails and must be the last", obs.PreCalls, c.Fail))
 	}
@@ -1314,7 +1369,7 @@ func c03pOne(ctx *vh.Ctx, c *c03pCase) error {
 		dis("C03:prefail:step-started:"+c.Mode,
 			fmt.Sprintf("submit returned the error of the %d-th pre-handler of a step of %d nodes and the run returned it, but executions of that step had been started and are never collected: %d goroutine(s) created by taskManager.submit alive after the return (%d inside a node body), bodies entered %v, finish events on a hand-off nobody reads %v (the model starts none: submit_fail_starts_nothing)",
 				c.Fail, c.N, obs.LeakedBlocked+obs.LeakedOther, obs.LeakedBlocked, obs.StepEntered, obs.StepFinished))
-	} else if c.Prefix && (obs.TraceNum > 0 || len(obs.TraceLost) > 0) && len(traceHasStepSubmit(events, step)) == 0 {
+	} else if c.Prefix && !c.Sibling && (obs.TraceNum > 0 || len(obs.TraceLost) > 0) && len(traceHasStepSubmit(events, step)) == 0 {
 		dis("C03:prefail:uncollected-before-step:"+c.Mode, fmt.Sprintf("the executions before the failing step were not all collected: num=%d, never received %v", obs.TraceNum, obs.TraceLost))
 	}
 	for _, k := range step {
@@ -1379,6 +1434,11 @@ func c03pFamily(ctx *vh.Ctx) error {
 						}
 						if err := c03pOne(ctx, &c03pCase{Kind: "prefail", Mode: mode, Prefix: prefix, N: n, Fail: fail}); err != nil {
 							return err
+						}
+						if mode == "workflow" && prefix && (fail == 0 || fail >= 2) {
+							if err := c03pOne(ctx, &c03pCase{Kind: "prefail", Mode: mode, Prefix: true, Sibling: true, N: n, Fail: fail}); err != nil {
+								return err
+							}
 						}
 					}
 				}
